@@ -418,7 +418,7 @@ def refine_dnf(b: Bounds, cond, polarity: bool, limit=8) -> list:
 def _refine_dnf(b, envs, cond, pol, limit):
     if isinstance(cond, T.Term):
         op, a = cond.op, cond.args
-        if op == "not":
+        if op in ("not", "invert", "np.logical_not"):
             return _refine_dnf(b, envs, a[0], not pol, limit)
         is_and = op in ("and", "np.logical_and")
         is_or = op in ("or", "np.logical_or")
@@ -449,7 +449,7 @@ def _refine(b: Bounds, env: Env, cond, pol: bool):
             env.infeasible = True
         return
     op, a = cond.op, cond.args
-    if op == "not":
+    if op in ("not", "invert", "np.logical_not"):
         return _refine(b, env, a[0], not pol)
     if op in ("and", "np.logical_and"):
         if pol:
